@@ -165,7 +165,7 @@ class Check:
 
     # ---------------------------------------------------------------- prove
     def lake_build(self, targets, what=None):
-        with Lock("lake"):
+        with Lock("lake-" + self.prop):
             rc, out = sh(["lake", "build", *targets], cwd=LEAN, timeout=3000)
         if rc != 0:
             self.broke(what or f"lake build {' '.join(targets)}", out)
@@ -206,7 +206,7 @@ class Check:
                 f.write(f"import {m}\n")
             for n in names:
                 f.write(f"#print axioms {n}\n")
-        with Lock("lake"):
+        with Lock("lake-" + self.prop):
             rc, out = sh(["lake", "env", "lean", probe], cwd=LEAN, timeout=600)
         cur = None
         found = {}
@@ -230,7 +230,7 @@ class Check:
 
     def leanchecker(self, modules):
         for m in modules:
-            with Lock("lake"):
+            with Lock("lake-" + self.prop):
                 rc, out = sh(["lake", "env", "leanchecker", m], cwd=LEAN, timeout=3000)
             if rc != 0:
                 self.broke(f"leanchecker {m}", out)
